@@ -135,4 +135,38 @@ IParseQ(s, basefield, skipws) ==
    ELSE LET pd == IParseNoWS(s, pn.n + 2, basefield) IN
         [ok |-> pd.ok, num |-> pn.v, den |-> pd.v, n |-> pd.n, slash |-> TRUE,
          open |-> pn.open \/ pd.open \/ (pn.n + 2 <= Len(s) /\ Ch(s, pn.n + 2) \in {"-", "+"})]       \* a signed denominator is not described
+
+(***************************************************************************)
+(* mpf INSERTION.  "Print op to stream, using its ios formatting settings   *)
+(* ... The decimal point follows the standard library float operator<<".    *)
+(* Specified conservatively: for a value k/2^j that a double holds exactly, *)
+(* in decimal, the text is the one the standard library prints for that     *)
+(* double WHENEVER the digits the state asks for represent the value        *)
+(* without rounding (then neither library has a rounding decision to make): *)
+(*   fixed:       the value has at most precision() digits after the point; *)
+(*   scientific:  at most precision()+1 significant digits;                 *)
+(*   general:     at most precision() significant digits.                   *)
+(* precision() = 0 outside fixed is excluded: cxx/osfuns.cc states "ios::   *)
+(* fixed allows prec==0, others take 0 as the default 6" (the standard      *)
+(* library treats it as 1 in general format).  General format with         *)
+(* showpoint for 0 < |value| < 1 printed in fixed notation is excluded too: *)
+(* printf/doprntf.c pads "to requested precision with trailing zeros, for   *)
+(* general this is all digits" and counts the zeros in front of the first   *)
+(* significant digit ("0.50000" where the standard library gives            *)
+(* "0.500000"); the manual does not state the number of trailing zeros: an  *)
+(* observation (NOTES-CxxStream.md), not decided here.                      *)
+(***************************************************************************)
+RECURSIVE TZ10(_)
+TZ10(N) == IF N = "0" THEN 0 ELSE IF ZTDivR(N, "a") = "0" THEN 1 + TZ10(ZTDivQ(N, "a")) ELSE 0
+MpfComparable(ff, prec, showpoint, k, j) ==
+   LET N == ZMul(ZAbs(k), ZPow("5", j))                  \* |value| = N / 10^j
+       nd == Len(ZDigits(N, 10, "0123456789"))
+       tz == TZ10(N)
+       sig == IF N = "0" THEN 1 ELSE nd - tz
+       frac == IF j - tz > 0 THEN j - tz ELSE 0
+       X == nd - 1 - j IN                                \* decimal exponent of the leading digit
+   IF ff = "fixed" THEN frac <= prec
+   ELSE /\ prec > 0 /\ sig <= (IF ff = "sci" THEN prec + 1 ELSE prec)
+        /\ ~(ff = "none" /\ showpoint = 1 /\ N # "0" /\ X < 0 /\ X >= -4)
+MpfOstreamOK(i, o) == o.wf = 0 /\ (MpfComparable(i.ff, i.prec, i.showpoint, i.k, i.j) => o.f = o.d)
 =============================================================================
